@@ -52,5 +52,5 @@ Example C04_example :
   let ops := [Fill [Fin (mkq 7 4)] 1; FillN [[Fin (qz (-1))]; [Fin (qz 3)]; [NaN]] None true; Fill [Fin (mkq 3 2)] (qz 2)] in
   map (fun x => (f_tmin (hd (mkFw 1 0 0 0 true) (a_axes (fst x))), f_count (hd (mkFw 1 0 0 0 true) (a_axes (fst x))))) (arun s ops)
   = [(3%Z, 1%nat); ((-2)%Z, 9%nat); ((-2)%Z, 9%nat)] /\
-  closel 0 (a_freq (fst (last (arun s ops) (s, RVoid)))) (map qz [1; 0; 0; 0; 0; 2; 1; 0; 1]%Z) = true.
+  closel 0 (a_freq (fst (last (arun s ops) (s, RVoid)))) (map qz [1; 0; 0; 0; 0; 3; 0; 0; 1]%Z) = true.
 Proof. vm_compute. split; reflexivity. Qed.
